@@ -36,10 +36,10 @@ impl Rng { fn next(&mut self) -> u64 { self.0 = self.0.wrapping_add(0x9E3779B97F
 
 #[derive(Clone)]
 struct RunStep { sleep: u64, out: Out }
-struct Args { idx: usize, log: Log, t0: Instant, run: Vec<RunStep>, stop_out: Out, start_out: Out, start_sleep: u64, gates: Arc<Vec<tokio::sync::Semaphore>> }
+struct Args { idx: usize, log: Log, t0: Instant, run: Vec<RunStep>, stop_out: Out, start_out: Out, start_sleep: u64, gates: Arc<Vec<tokio::sync::Semaphore>>, peers: Arc<Mutex<Vec<Option<ActorRef<S>>>>>, opctr: Arc<Mutex<u64>> }
 struct S { a: Args, n: u64, run_done: usize, inv: u32, said_false: bool }
 #[derive(Clone)]
-struct M { uid: u64, sleep: u64, gate: Option<usize>, kill_self: bool }
+struct M { uid: u64, sleep: u64, gate: Option<usize>, kill_self: bool, hpanic: bool, peer: Option<(usize, bool, u64)> }
 fn now(t0: Instant) -> u64 { t0.elapsed().as_millis() as u64 }
 
 struct Polled<'a, F> { f: Pin<Box<F>>, log: &'a Log, actor: usize, inv: u32, t0: Instant, done: bool }
@@ -88,6 +88,13 @@ impl Message<M> for S { type Reply = u64;
         if let Some(g) = m.gate { let p = self.a.gates[g].acquire().await.unwrap(); p.forget(); }
         if m.sleep > 0 { tokio::time::sleep(Duration::from_millis(m.sleep)).await; }
         if m.kill_self { r.kill().unwrap(); }
+        if let Some((t, ask, nuid)) = m.peer { let peer = self.a.peers.lock().unwrap()[t].clone(); if let Some(p) = peer {
+            let op = { let mut c = self.a.opctr.lock().unwrap(); *c += 1; *c + 1_000_000 };
+            let sub = M { uid: nuid, sleep: 2, gate: None, kill_self: false, hpanic: false, peer: None };
+            push(&self.a.log, Ev::CallStart { op, actor: t, kind: if ask { "ask" } else { "tell" }, uid: nuid, to: 0, t: now(self.a.t0) });
+            let res = if ask { p.ask(sub).await.map(Some) } else { p.tell(sub).await.map(|_| None) };
+            push(&self.a.log, Ev::CallEnd { op, res: match res { Ok(v) => Res::Ok(v), Err(e) => map_err(e) }, t: now(self.a.t0) }); } }
+        if m.hpanic { panic!("scripted handler panic"); }
         let reply = m.uid * 1000 + self.n;
         push(&self.a.log, Ev::HExit { actor: self.a.idx, uid: m.uid, reply, t: now(self.a.t0) }); reply } }
 
@@ -111,7 +118,7 @@ impl tracing::Subscriber for Sub {
 #[derive(Clone, Debug)]
 enum Op { Tell, TellTo(u64), Ask, AskTo(u64), Stop, Kill, DropRef, OpenGate(usize) }
 #[derive(Clone, Debug)]
-struct COp { op: Op, pre: u64 /*0 none,1 yield, else sleep ms*/, msg_sleep: u64, gate: Option<usize>, kill_self: bool }
+struct COp { op: Op, pre: u64 /*0 none,1 yield, else sleep ms*/, msg_sleep: u64, gate: Option<usize>, kill_self: bool, hpanic: bool, peer: Option<(usize, bool)> }
 #[derive(Debug, Clone)]
 struct ActorSpec { cap: usize, run: Vec<(u64, Out)>, stop_out: Out, start_out: Out, start_sleep: u64 }
 #[derive(Debug, Clone)]
@@ -119,7 +126,7 @@ struct Scenario { actors: Vec<ActorSpec>, clients: Vec<(usize, Vec<COp>)>, ngate
 
 fn gen(seed: u64) -> Scenario {
     let mut r = Rng(seed);
-    let nact = 1 + r.below(2) as usize; let ngates = 1 + r.below(2) as usize;
+    let nact = 1 + r.below(3) as usize; let ngates = 1 + r.below(2) as usize;
     let mut actors = vec![];
     for _ in 0..nact {
         let mut run = vec![]; for _ in 0..r.below(4) { let out = match r.below(10) { 0 => Out::Err, 1 | 2 => Out::False, 3 if r.chance(20) => Out::Panic, _ => Out::True }; run.push((2 * r.below(4), out)); }
@@ -134,9 +141,10 @@ fn gen(seed: u64) -> Scenario {
         for _ in 0..(2 + r.below(7)) {
             let op = match r.below(20) { 0..=5 => Op::Tell, 6 | 7 => Op::TellTo(2 * (1 + r.below(5))), 8..=12 => Op::Ask, 13 | 14 => Op::AskTo(2 * (1 + r.below(5))), 15 => Op::Stop, 16 => Op::Kill, 17 => Op::OpenGate(r.below(ngates as u64) as usize), _ => Op::Tell };
             let pre = match r.below(4) { 0 => 0, 1 => 1, _ => 2 * (1 + r.below(4)) };
-            ops.push(COp { op, pre, msg_sleep: 2 * r.below(4), gate: if r.chance(15) { Some(r.below(ngates as u64) as usize) } else { None }, kill_self: r.chance(3) });
+            let peer = if target + 1 < nact && r.chance(25) { Some((target + 1, r.chance(60))) } else { None };
+            ops.push(COp { op, pre, msg_sleep: 2 * r.below(4), gate: if r.chance(15) { Some(r.below(ngates as u64) as usize) } else { None }, kill_self: r.chance(3), hpanic: r.chance(2), peer });
         }
-        if r.chance(50) { ops.push(COp { op: Op::DropRef, pre: 0, msg_sleep: 0, gate: None, kill_self: false }); }
+        if r.chance(50) { ops.push(COp { op: Op::DropRef, pre: 0, msg_sleep: 0, gate: None, kill_self: false, hpanic: false, peer: None }); }
         clients.push((target, ops));
     }
     Scenario { actors, clients, ngates }
@@ -156,10 +164,11 @@ fn run(sc: &Scenario, sub_slot: &Arc<Mutex<Option<Log>>>) -> RunOut {
         let gates: Arc<Vec<tokio::sync::Semaphore>> = Arc::new((0..sc.ngates).map(|_| tokio::sync::Semaphore::new(0)).collect());
         let mut refs: Vec<Option<ActorRef<S>>> = vec![]; let mut weaks = vec![]; let mut ids = vec![]; let mut jhs = vec![];
         let strong: Rc<RefCell<Vec<usize>>> = Rc::new(RefCell::new(vec![0; sc.actors.len()]));
+        let peers: Arc<Mutex<Vec<Option<ActorRef<S>>>>> = Arc::new(Mutex::new(vec![None; sc.actors.len()])); let aopctr = Arc::new(Mutex::new(0u64));
         for (i, a) in sc.actors.iter().enumerate() {
-            let args = Args { idx: i, log: l2.clone(), t0, run: a.run.iter().map(|(s, o)| RunStep { sleep: *s, out: o.clone() }).collect(), stop_out: a.stop_out.clone(), start_out: a.start_out.clone(), start_sleep: a.start_sleep, gates: gates.clone() };
+            let args = Args { idx: i, log: l2.clone(), t0, run: a.run.iter().map(|(s, o)| RunStep { sleep: *s, out: o.clone() }).collect(), stop_out: a.stop_out.clone(), start_out: a.start_out.clone(), start_sleep: a.start_sleep, gates: gates.clone(), peers: peers.clone(), opctr: aopctr.clone() };
             let (r, jh) = spawn_with_mailbox_capacity::<S>(args, a.cap);
-            ids.push(r.identity().id); weaks.push(ActorRef::downgrade(&r)); refs.push(Some(r));
+            ids.push(r.identity().id); weaks.push(ActorRef::downgrade(&r)); peers.lock().unwrap()[i] = Some(r.clone()); strong.borrow_mut()[i] += 1; refs.push(Some(r));
             let l3 = l2.clone();
             jhs.push(tokio::spawn(async move { let res = jh.await; let (c, k, p) = match &res { Ok(r) => (Some(r.is_completed()), Some(r.was_killed()), false), Err(e) => (None, None, e.is_panic()) }; push(&l3, Ev::Ended { actor: i, t: now(t0), completed: c, killed: k, panic: p }); }));
         }
@@ -176,7 +185,7 @@ fn run(sc: &Scenario, sub_slot: &Arc<Mutex<Option<Log>>>) -> RunOut {
                 for (o, uid) in ops {
                     match o.pre { 0 => {} 1 => tokio::task::yield_now().await, d => tokio::time::sleep(Duration::from_millis(d)).await }
                     let Some(rr) = r.as_ref() else { break };
-                    let m = M { uid, sleep: o.msg_sleep, gate: o.gate, kill_self: o.kill_self };
+                    let m = M { uid, sleep: o.msg_sleep, gate: o.gate, kill_self: o.kill_self, hpanic: o.hpanic, peer: o.peer.map(|(t, a)| (t, a, uid + 500_000)) };
                     let op = { let mut c = opctr.borrow_mut(); *c += 1; *c };
                     let (kind, to): (&'static str, u64) = match &o.op { Op::Tell => ("tell", 0), Op::TellTo(d) => ("tell_to", *d), Op::Ask => ("ask", 0), Op::AskTo(d) => ("ask_to", *d), Op::Stop => ("stop", 0), Op::Kill => ("kill", 0), Op::DropRef => ("drop", 0), Op::OpenGate(_) => ("gate", 0) };
                     if kind == "gate" { if let Op::OpenGate(g) = o.op { gates[g].add_permits(1000); } continue; }
@@ -191,12 +200,21 @@ fn run(sc: &Scenario, sub_slot: &Arc<Mutex<Option<Log>>>) -> RunOut {
         }
         // drop the spawner's own refs
         for (i, r) in refs.iter_mut().enumerate() { *r = None; let _ = i; }
-        let l4 = l2.clone(); let strong2 = strong.clone(); let gates2 = gates.clone();
+        let l4 = l2.clone(); let strong2 = strong.clone(); let gates2 = gates.clone(); let peers2 = peers.clone();
         local.run_until(async move {
             tokio::time::sleep(Duration::from_millis(3_600_001)).await; // Q1 (odd instant)
             for (i, w) in weaks.iter().enumerate() { let up = w.upgrade(); push(&l4, Ev::Sample { actor: i, t: now(t0), finished: false, upgrade: up.is_some(), model_strong: strong2.borrow()[i] }); }
             for g in gates2.iter() { g.add_permits(100000); }
-            tokio::time::sleep(Duration::from_millis(3_600_000)).await; // Q2
+            tokio::time::sleep(Duration::from_millis(3_600_000)).await; // Q2 (odd instant)
+            // probe phase: peers table still holds one strong ref per actor
+            let held: Vec<Option<ActorRef<S>>> = peers2.lock().unwrap().clone();
+            for (i, p) in held.iter().enumerate() { if let Some(p) = p { let uid = 900_000 + i as u64; let op = 2_000_000 + i as u64;
+                push(&l4, Ev::CallStart { op, actor: i, kind: "probe", uid, to: 0, t: now(t0) });
+                let res = p.ask(M { uid, sleep: 0, gate: None, kill_self: false, hpanic: false, peer: None }).await;
+                push(&l4, Ev::CallEnd { op, res: match res { Ok(v) => Res::Ok(Some(v)), Err(e) => map_err(e) }, t: now(t0) }); } }
+            drop(held);
+            for (i, p) in peers2.lock().unwrap().iter_mut().enumerate() { if p.take().is_some() { let mut s = strong2.borrow_mut(); s[i] -= 1; push(&l4, Ev::DropRef { actor: i, remaining: s[i] }); } }
+            tokio::time::sleep(Duration::from_millis(3_600_000)).await; // Q3
             for (i, w) in weaks.iter().enumerate() { let up = w.upgrade(); push(&l4, Ev::Sample { actor: i, t: now(t0), finished: true, upgrade: up.is_some(), model_strong: strong2.borrow()[i] }); }
         }).await;
         drop(handles); drop(jhs);
@@ -292,10 +310,16 @@ fn check(sc: &Scenario, out: &RunOut) -> Vec<String> {
             _ => { if *t > d + 1 { v.push(format!("C10 non-timeout error returned after deadline: {t} > {d} ({:?})", res)); } } } }
     // C13
     let mut exp: BTreeMap<(u64, String, String), i64> = BTreeMap::new(); let mut failures = 0u64;
-    for (op, s) in &start { if let Some((_, res, _)) = end.get(op) { let fam = match s.2 { "tell" | "tell_to" => "tell", "ask" | "ask_to" => "ask", _ => continue }; let reason = match res { Res::Send => "actor stopped", Res::Timeout => "timeout", Res::Receive => "reply dropped", _ => continue }; failures += 1; *exp.entry((out.ids[s.1], fam.to_string(), reason.to_string())).or_default() += 1; } }
+    for (op, s) in &start { if let Some((_, res, _)) = end.get(op) { let fam = match s.2 { "tell" | "tell_to" => "tell", "ask" | "ask_to" | "probe" => "ask", _ => continue }; let reason = match res { Res::Send => "actor stopped", Res::Timeout => "timeout", Res::Receive => "reply dropped", _ => continue }; failures += 1; *exp.entry((out.ids[s.1], fam.to_string(), reason.to_string())).or_default() += 1; } }
     for e in log.iter() { if let Ev::DeadLetter { actor_id, op, reason } = e { *exp.entry((*actor_id, op.clone(), reason.clone())).or_default() -= 1; } }
     for (k, c) in &exp { if *c != 0 { v.push(format!("C13 dead letter mismatch {:?}: expected-observed = {c}", k)); } }
     if out.dl_delta != failures { v.push(format!("C13 counter delta {} != failures {failures}", out.dl_delta)); }
+    // C07 negative: actor with a strong ref and no cause must answer the probe
+    for (op, s) in &start { if s.2 != "probe" { continue; } let a = s.1; let Some((_, res, _)) = end.get(op) else { v.push(format!("C07 probe pending actor {a}")); continue };
+        let stops = start.values().any(|x| x.1 == a && x.2 == "stop"); let cause = !start_ok[a] || run_err[a] || panicked[a] || !kills[a].is_empty() || selfkill[a] || stops;
+        let hp = sc.clients.iter().any(|(t, ops)| *t == a && ops.iter().any(|o| o.hpanic)) || sc.actors[a].run.iter().any(|r| r.1 == Out::Panic);
+        if !cause && !hp { match res { Res::Ok(Some(_)) => {} other => v.push(format!("C07 actor {a} held by a strong ref with no cause did not answer probe: {:?}", other)) } }
+        if ended[a].map(|e| e.0 < s.0).unwrap_or(false) && matches!(res, Res::Ok(_)) { v.push(format!("C03 probe to ended actor {a} succeeded")); } }
     // C11 upgrade vs model at quiescent samples (final): model 0 => None
     for e in log.iter() { if let Ev::Sample { actor, upgrade, model_strong, finished, .. } = e { if *finished && *model_strong == 0 && *upgrade { v.push(format!("C11 upgrade Some with no strong refs actor {actor}")); } if *model_strong > 0 && !*upgrade { v.push(format!("C11 upgrade None though {model_strong} strong handles actor {actor}")); } } }
     v
